@@ -128,7 +128,7 @@ def witness_cases(ctx, env, flags):
     scenario("clean", clean)
     ks = list(range(1, info.get("n", 0) + 1))
     if ctx.tier == "quick":
-        ks = ks[-12:]           # the commits of the resolve phase (record_call_node / record_job_end) are last
+        ks = ks[-9:]            # the commits of the resolve phase (record_call_node / record_job_end) are last
     for k in ks:
         def crash(c, k=k):
             c.disturb.append("crash")
@@ -300,7 +300,7 @@ def run(ctx):
         if not flags["cseSubtreeFromDb"]:
             ctx.expect_known(SIGS["cseSubtreeFromDb"][0], True, twin_case, SIGS["cseSubtreeFromDb"][1])
         cases = witness_cases(ctx, env, flags)
-        for i in range(ctx.n(12, 220)):
+        for i in range(ctx.n(9, 220)):
             c = ctl_db.guarded(ctx, f"gen{i}", lambda i=i: gen_case(ctx, env, flags, i))
             if c is not None:
                 cases.append(c)
